@@ -37,6 +37,7 @@ fn main() {
     match cmd.as_slice() {
         ["gen", "eval"] => eval::gen(&args),
         ["replay", "eval"] => eval::replay(&args),
+        ["record", "eval"] => eval::record(&args),
         ["replay", "trunc"] => strategy::replay_trunc(&args),
         ["replay", "dist"] => strategy::replay_dist(&args),
         ["replay", "import"] => strategy::replay_import(&args),
